@@ -265,6 +265,20 @@ def run_shard(spec, tier, seed, budget_s):
         while k < target and not sh.out_of_time():
             k += 1
             doc = gen.random_doc(rng, rng.choice(['small', 'small', 'medium']), 'plain', flavours=('tok',), props=rng.random() < 0.3)
+            shape = rng.choice(['full', 'full', 'full', 'notables', 'emptysticky'])
+            if shape == 'notables':
+                # a database without tables: only enums, sticky notes and a project
+                doc.tables, doc.refs, doc.groups = [], [], []
+                if not doc.enums:
+                    doc.enums.append(am.Enum('public', 'eonlyq', [am.EnumItem('i1q')]))
+                if doc.project is None:
+                    doc.project = am.Project('ponlyq', [('k1q', 'v1q')])
+                doc.stickies.append(am.Sticky('sonlyq', 'text onlyq'))
+                doc.default_order()
+            elif shape == 'emptysticky':
+                doc.stickies.append(am.Sticky('semptyq', ''))
+                doc.order.append(('s', len(doc.stickies) - 1))
+            sh.count('obs.shape.' + shape)
             text = surface.render(doc, f'{seed}-{i}-{k}')
             feats = gen.features(doc)
             for origin in ('parsed', 'api'):
@@ -286,7 +300,7 @@ def run_shard(spec, tier, seed, budget_s):
 
 def conclusive(agg, tier):
     c = agg['counters']
-    return [f'{k} is zero' for k in ('obs.containment_checks', 'obs.purity_runs', 'obs.renderings_evaluated', 'obs.routing_checks',
+    return [f'{k} is zero' for k in ('obs.shape.notables', 'obs.shape.emptysticky', 'obs.containment_checks', 'obs.purity_runs', 'obs.renderings_evaluated', 'obs.routing_checks',
                                      'obs.partial_checks', 'obs.detached_checks') if not c.get(k)]
 
 
